@@ -244,7 +244,18 @@ def gen_pseudo_exact(rng, tier):
         sks.append(rng.choice(sks))
     rng.shuffle(sks)
     uid = g.new_id()
-    g.lines.append("unew %d %d" % (uid, rng.choice([16, 32, 40])))
+    maxk = rng.choice([16, 32, 40])
+    g.lines.append("unew %d %d" % (uid, maxk))
+    if rng.random() < 0.5:
+        # a union that has ALREADY been in sampling mode, was reset() and is reused: whatever the gadget accumulated before the reset
+        # (R-region weight, marks, outer tau) must be gone when the pseudo-exact resolution reads it
+        big = g.sketch(rng.choice([maxk, 2 * maxk]), 0, 3 * maxk + rng.randint(0, 9), rng.choice(PATTERNS))
+        g.lines.append("umerge %d %d %s" % (uid, big, draws(rng, 2 * maxk + 2, 2 * maxk + 2)))
+        if rng.random() < 0.5:
+            g.lines.append("ures %d %d %s" % (uid, g.new_id(), draws(rng, 45, 45)))
+        g.lines.append("ureset %d" % uid)
+        if rng.random() < 0.3:
+            g.lines.append("ures %d %d %s" % (uid, g.new_id(), draws(rng, 45, 45)))
     for s in sks:
         g.lines.append("umerge %d %d %s" % (uid, s, draws(rng, 10, 10)))
     d = g.new_id()
